@@ -103,6 +103,56 @@ def degenerate_edges(fn, sym, prog=None, opaque=None):
             continue
         if alts and all(any(_degenerate_deep(prog, c_, v2) for c_, v2 in alt) for alt in alts):
             out.add((p, s))
+    # a bool local that holds `a || b` (lowered to several assignments): the edge taken when it is
+    # true is degenerate when every assignment that can make it true is -- a constant `true`
+    # stored in a block that is only entered through degenerate edges, or a degenerate comparison
+    defs = fn.defs()
+    for _round in range(3):
+        grew = False
+        for (p, s, cond, val) in sym.edge_facts():
+            if (p, s) in out or not isinstance(val, bool):
+                continue
+            c = cond
+            while isinstance(c, tuple) and c and c[0] in ("copy", "ref", "deref"):
+                c = c[1]
+            if not (isinstance(c, tuple) and c and c[0] == "local"):
+                continue
+            ds = [d for d in defs.get(c[1], []) if d[3]]
+            if len(ds) < 2:
+                continue
+            good = True
+            relevant = 0
+            for (bb, j, rv, w) in ds:
+                if rv[0] == "use" and rv[1][0] == "k":
+                    try:
+                        cv = bool(rv[1][2]) if isinstance(rv[1][2], (bool, int)) else None
+                    except Exception:
+                        cv = None
+                    if cv is None:
+                        good = False
+                        break
+                    if cv != val:
+                        continue
+                    relevant += 1
+                    preds = [q for q in fn.pred[bb] if not fn.is_cleanup(q)]
+                    if not preds or not all((q, bb) in out for q in preds):
+                        good = False
+                        break
+                else:
+                    relevant += 1
+                    try:
+                        e = sym.rvalue(rv, bb, (bb, j))
+                    except Exception:
+                        good = False
+                        break
+                    if not _degenerate_fact(e, val):
+                        good = False
+                        break
+            if good and relevant:
+                out.add((p, s))
+                grew = True
+        if not grew:
+            break
     return out
 
 
@@ -158,6 +208,35 @@ def always_err(prog, g, depth=0):
     return res
 
 
+def _const_is_err(prog, op):
+    """a constant operand of type Result<(), E> with E a field-less crate-local enum: the
+    evaluated value is one scalar; the discriminants of E's variants mean Err(variant), the first
+    value after them is the niche that encodes Ok(())"""
+    import re as _re
+    # the driver names the variant of an enum constant that fits one scalar (decoded from the
+    # layout, niche encodings included)
+    if len(op) > 3 and isinstance(op[3], list) and op[3] and op[3][0] == "variant" \
+            and _re.match(r"^(?:std|core)::result::Result<", str(op[1])):
+        return op[3][1] == "Err"
+    if len(op) < 3 or not isinstance(op[2], list) or not op[2] or op[2][0] != "bits":
+        return False
+    m = _re.match(r"^(?:std|core)::result::Result<\(\), (.+)>$", str(op[1]))
+    if not m:
+        return False
+    ety = m.group(1).strip()
+    ids = [k for k in prog.adts if k == ety or k.endswith("::" + ety) or ety.endswith("::" + k.split("::", 1)[-1])]
+    if len(ids) != 1:
+        return False
+    vs = prog.adts[ids[0]].get("variants", [])
+    if not vs or any(v.get("fields") for v in vs):
+        return False
+    try:
+        val = int(op[2][1])
+    except Exception:
+        return False
+    return 0 <= val < len(vs)
+
+
 def error_return_blocks(fn, prog=None):
     """blocks that build an Err(..) / residual in (a local that becomes) the return value, or
     call a crate-local helper that returns Err on all its paths for it"""
@@ -171,6 +250,9 @@ def error_return_blocks(fn, prog=None):
                     and st[2][1] == "adt":
                 if st[2][2] == "core::result::Result" and st[2][3][1] == "Err":
                     out.add(b)
+            elif st[0] == "a" and len(st[1]) == 1 and st[1][0] in rl and st[2][0] == "use" \
+                    and st[2][1][0] == "k" and prog is not None and _const_is_err(prog, st[2][1]):
+                out.add(b)          # `const X: Result<(), E> = Err(E::V)` returned by name
         t = blk["t"]
         if t[0] == "call" and len(t[3]) == 1 and t[3][0] in rl:
             nm = t[1].get("name", "")
